@@ -200,6 +200,21 @@ theorem acoll_spec (pb : Option (Nat × Nat)) (genes fcs : List Member) (bnd : O
 theorem children_sorted_stable (ms : List Member) : isStableSortByStart ms (sortMembers ms) = true :=
   stable_sortMembers ms
 
+/-- T4c (op `aciter`): `iter_children` / `children_guids` of a collection that also holds variant collections
+    (`AnnotationCollection.children`: `sorted(chain(genes, feature_collections, variant_collections), key=start)`): the
+    iteration is the stable sort by start of ALL members — none is dropped, also when there is no gene and no feature
+    collection — and it lists exactly as many members as were handed in. -/
+theorem all_member_kinds_iterated (genes fcs vcs : List Member) :
+    isStableSortByStart (genes ++ fcs ++ vcs) (sortMembers (genes ++ fcs ++ vcs)) = true ∧
+    (sortMembers (genes ++ fcs ++ vcs)).length = genes.length + fcs.length + vcs.length := by
+  refine ⟨stable_sortMembers _, ?_⟩
+  unfold sortMembers
+  rw [List.length_mergeSort]
+  simp only [List.length_append]
+
+example : isStableSortByStart ([] ++ [] ++ [⟨false, 1000, 5, 6⟩, ⟨false, 1001, 0, 5⟩])
+    [⟨false, 1001, 0, 5⟩, ⟨false, 1000, 5, 6⟩] = true := by decide
+
 -- non-vacuity of the hypotheses
 example : ∀ c ∈ ([⟨.minus, true, (0, 4), [(6, 6), (7, 9)], some [(1, 3)], []⟩, ⟨.minus, false, (3, 3), [], none, []⟩] : List Child),
     c.primary = true → c.len ≠ 0 := by decide
